@@ -170,6 +170,7 @@ fn install_location_hook() {
 }
 
 fn main() {
+    simcore::install_log_sink();
     let args = parse_args();
     if !args.cmd.starts_with("child") {
         install_location_hook();
